@@ -4,7 +4,7 @@ real tlslite objects (create(...) / parse(...) / field view)."""
 import glob
 import os
 
-from c15_fmt import (U, Const, Fix, Rest, Seq, Bounded, Rep, Opt, Tag, BYTES, EMPTY, FAIL, Var, VarR, VarList,
+from c15_fmt import (Check, U, Const, Fix, Rest, Seq, Bounded, Rep, Opt, Tag, BYTES, EMPTY, FAIL, Var, VarR, VarList,
                      VarTuples, List, fseq, Msg, sel_of, Some, Tagged, tup, untup)
 
 REPO = os.path.realpath(os.environ.get('VERIF_REPO', '/repo'))
@@ -87,6 +87,8 @@ def ExtF(ctx):
 
 EXT = {c: ExtF(c) for c in EXT_TABLE}
 EXTLIST = {c: List(2, EXT[c]) for c in EXT_TABLE}
+# ClientHello / ServerHello / CertificateRequest 1.3 / EncryptedExtensions: no repeated extension type
+EXTLISTU = {c: Bounded(2, Check('uniq_tags', Rep(EXT[c]))) for c in EXT_TABLE}
 
 HRR_RANDOM = bytes([207, 33, 173, 116, 229, 154, 97, 17, 190, 29, 140, 2, 30, 101, 184, 145,
                     194, 162, 17, 22, 122, 187, 140, 94, 7, 158, 9, 226, 200, 168, 51, 156])
@@ -147,7 +149,7 @@ def stp_sel(ver):
 
 
 def sh_sel(rnd):
-    return fseq([Var(1), U(2), U(1), Opt(EXTLIST['CtxHRR' if rnd == HRR_INT else 'CtxServer'])])
+    return fseq([Var(1), U(2), U(1), Opt(EXTLISTU['CtxHRR' if rnd == HRR_INT else 'CtxServer'])])
 
 
 # =====================================================================================
@@ -438,7 +440,7 @@ def build_table():
                         list(o.cipher_suites), list(o.compression_methods), some(o.extensions, exts_view)]))
     add('ClientHello', 'fmt_ClientHello',
         Msg(1, fseq([U(1), U(1), Fix(32), VarR(1, 0, 32), VarList(2, 2), VarList(1, 1),
-                     Opt(EXTLIST['CtxUniversal'])])),
+                     Opt(EXTLISTU['CtxUniversal'])])),
         M.ClientHello, ch_build, ch_view, hdr=1, weight=3, ext_ctx='CtxUniversal')
 
     def sh_build(v):
@@ -463,7 +465,7 @@ def build_table():
                                     some(o.extensions, exts_view)]))]))
     add('ServerHello', 'fmt_ServerHello', Msg(2, fseq([U(1), U(1), ('Tag', 32, sh_sel, 'random')])),
         M.ServerHello, sh_build, sh_view, hdr=2, weight=3, ext_ctx='CtxServer')
-    add('EncryptedExtensions', 'fmt_EncryptedExtensions', Msg(8, EXTLIST['CtxUniversal']), M.EncryptedExtensions,
+    add('EncryptedExtensions', 'fmt_EncryptedExtensions', Msg(8, EXTLISTU['CtxUniversal']), M.EncryptedExtensions,
         lambda v: M.EncryptedExtensions().create(exts_build('CtxUniversal', v[1])),
         lambda o: (8, exts_view(o.extensions)), hdr=8, ext_ctx='CtxUniversal')
 
@@ -504,7 +506,7 @@ def build_table():
         add('CertificateRequest(%s)' % ('tls1.2' if tls12 else 'tls1.0'),
             '(fmt_CertificateRequest %s)' % ('true' if tls12 else 'false'), f,
             lambda ver=ver: M.CertificateRequest(ver), cr_build, cr_view, hdr=13)
-    add('CertificateRequest(tls1.3)', 'fmt_CertificateRequest13', Msg(13, Seq(Var(1), EXTLIST['CtxUniversal'])),
+    add('CertificateRequest(tls1.3)', 'fmt_CertificateRequest13', Msg(13, Seq(Var(1), EXTLISTU['CtxUniversal'])),
         lambda: M.CertificateRequest((3, 4)),
         lambda v: M.CertificateRequest((3, 4)).create(context=ba(v[1][0]),
                                                       extensions=exts_build('CtxUniversal', v[1][1])),
